@@ -102,6 +102,8 @@ Lemma T_fail : forall s e, P s -> P (fail s e).
 Proof. intros s e H. eapply told_fail; eauto. Qed.
 Lemma T_emit : forall s e, obs_event e -> P s -> P (emit s e).
 Proof. intros s e He. apply told_emit; destruct e; simpl in He; try contradiction; reflexivity. Qed.
+Lemma T_step : forall s kind mkid x, find_mkt mkid (s_markets s) = Some x -> P s -> P (emit s (ev_step s kind x)).
+Proof. intros s kind mkid x _. apply told_emit; reflexivity. Qed.
 Lemma T_boundary : forall s e, boundary_event e -> P s -> P (flush (write s e)).
 Proof.
   intros s e He [[P1 P2] H].
@@ -261,6 +263,7 @@ Proof.
   apply (run_up (told [])).
   - apply T_fail.
   - apply T_emit.
+  - apply T_step.
   - apply T_boundary.
   - apply told_tick_all.
   - apply T_pop_perm.
